@@ -70,8 +70,12 @@ def gen_cases(rng, tier):
     for fn in (1, 2, 3, 4, 5, 6, 7):
         for size in sizes:
             reps = 2 if tier == "quick" else 6
+            if size > 1100:
+                reps = 1                                  # the extracted list model is quadratic in the size
             for _ in range(reps):
                 nops = rng.choice([0, 1, 2, 3, 4, 5, 6, 7, 8, 9, 10, 11, 12, 13, 15, 16, 17, 20]) if fn in (2, 3) else 1
+                if size > 1100:
+                    nops = min(nops, 2)
                 c = rng.below(16 if fn in (6, 7) else 256)
                 cases.append(mk(fn, size, nops, c))
     # every operand count 0..20 at sizes that exercise each branch (8k, 8k+4, 8k+4+r)
